@@ -22,20 +22,29 @@ import WpModel.Model.Transform
 namespace Wp.Stacking
 open Wp Wp.Gen
 
+/-- `style['visibility']`. -/
+inductive Visibility where
+  | visible | hidden | collapse
+  deriving Repr, DecidableEq, Inhabited
+
 /-- The part of the computed style `layout_box_backgrounds` reads: `visibility`, the colour of
 `background-color` (`none` = alpha 0) and how many entries of `background-image` are images. -/
 structure StyleBg where
-  visible : Bool
+  visibility : Visibility
   colour : Option Nat
   images : Nat
   deriving Repr, DecidableEq, Inhabited
+
+/-- `style['visibility'] == 'hidden'` — the test of `layout_box_backgrounds` (every other reader of
+`visibility` in the drawing code tests `!= 'visible'`; `Attrs.visible` is that test). -/
+def StyleBg.hidden (s : StyleBg) : Bool := s.visibility == .hidden
 
 /-- `layout_box_backgrounds`: `box.background`.  A hidden box has no images and a transparent colour;
 a transparent colour without image is `None` — except on the page box ("Pages need a background for
 bleed box"). -/
 def boxBackground (isPage : Bool) (s : StyleBg) : Option (Option Nat) :=
-  let colour := if s.visible then s.colour else none      -- parse_color('transparent')
-  let images := if s.visible then s.images else 0         -- images = []
+  let colour := if s.hidden then none else s.colour      -- parse_color('transparent')
+  let images := if s.hidden then 0 else s.images         -- images = []
   if colour.isNone && images == 0 then
     (if isPage then some none else none)                  -- `if box != page: box.background = None; return`
   else some colour
